@@ -243,16 +243,17 @@ struct default_color_converter_impl<ycbcr_709__t, rgb_t>
 	{
         using namespace ycbcr_709_color_space;
 
-        using src_channel_t = typename channel_type<SRCP>::type;
         using dst_channel_t = typename channel_type<DSTP>::type;
 
-		src_channel_t y           = channel_convert<src_channel_t>( get_color(src,  y_t())       );
-		src_channel_t cb_clipped  = channel_convert<src_channel_t>( get_color(src, cb_t()) - 128 );
-		src_channel_t cr_clipped  = channel_convert<src_channel_t>( get_color(src, cr_t()) - 128 );
+		// the chroma offsets are plain numbers, not channels: no channel_convert
+		// (inverse of the rgb -> ycbcr_709 matrix above; results clamped before the narrowing cast)
+		double y  = get_color(src,  y_t());
+		double cb_clipped = get_color(src, cb_t()) - 128.0;
+		double cr_clipped = get_color(src, cr_t()) - 128.0;
 
-		double   red =   y                        +   1.042 * cr_clipped;
-		double green =   y - 0.34414 * cb_clipped - 0.71414 * cr_clipped;
-		double  blue =   y +   1.772 * cb_clipped;
+		double   red = detail::clamp( y                        +   1.402 * cr_clipped, 0.0, 255.0 );
+		double green = detail::clamp( y - 0.34414 * cb_clipped - 0.71414 * cr_clipped, 0.0, 255.0 );
+		double  blue = detail::clamp( y +   1.772 * cb_clipped                       , 0.0, 255.0 );
 
 		get_color( dst,   red_t() ) = (dst_channel_t)   red;
 		get_color( dst, green_t() ) = (dst_channel_t) green;
